@@ -300,6 +300,44 @@ def shard_c(arg, acc):
 
 
 # ---------------------------------------------------------------------------
+# (e) arguments of %include / %import: URL-shaped junk
+
+URL_TOKENS = ["a.invalid", ":", "/", "[", "]", "#", "%", "\x00", "@", "?", "9", "..", "package", "file", " x"]
+URL_PREFIXES = ["", "http:", "http://", "file:", "file://", "ftp://", "package:", "package:os:", "//", "mailto:",
+                "HTTP://", "data:"]
+
+
+def shard_e(arg, acc):
+    lo, hi, maxlen = arg
+    sch = H.load_schema(GRAPH_SCHEMA)
+    combos = [()]
+    for n in range(1, maxlen + 1):
+        combos += list(itertools.product(URL_TOKENS, repeat=n))
+    for ci in range(lo, min(hi, len(combos))):
+        tail = "".join(combos[ci])
+        for pre in URL_PREFIXES:
+            arg_ = pre + tail
+            if not arg_.strip():
+                continue
+            for directive, ctx in (("%include", False), ("%include", True), ("%import", False)):
+                line = directive + " " + arg_
+                text = ("<s>\n  %s\n</s>\n" % line) if ctx else (line + "\n")
+                acc.current = text
+                r = H.load(sch, text, url="file:///v/g/main.conf")
+                acc.ev()
+                acc.transitions += 1
+                acc.nt()
+                acc.cls("directive-arg-" + classify(r).split(":")[0])
+                if r[0] == "internal":
+                    d = core.exc_desc(r[1])
+                    acc.violation("internal-error-escapes", {"text": text, "directive_argument": arg_}, d,
+                                  "ZConfig.ConfigurationError family",
+                                  tags={"kind": "internal-error", "exc": d["class"], "where": d["where"],
+                                        "input": "directive-argument"})
+    return acc
+
+
+# ---------------------------------------------------------------------------
 # (d) the validator command
 
 def shard_d(arg, acc):
@@ -386,9 +424,11 @@ def run(tier):
              "(accepted corpus texts <= 9 lines, capped per schema; a 40-line hand-written text)%s; (b) every valid "
              "override specifier of seeds with sections and all its single mutations; (c) all 512 include graphs over "
              "3 in-memory resources x {top level, inside a section}; (d) validator.main in-process on singles, pairs "
-             "and triples of files.  states = seeds, transitions = loads.  Non-trivial = mutated input whose "
+             "and triples of files; (e) '%%include' (top level and inside a section) and '%%import' with every argument made of a "
+             "URL prefix (12) + <= %d tokens from a 15-token URL alphabet ('[', ']', ':', '#', NUL, '..', 'package', an "
+             "unresolvable host ...).  states = seeds, transitions = loads.  Non-trivial = mutated input whose "
              "outcome class differs from its seed's / graph with >= 1 edge / validator run on >= 2 files."
-             % ("" if tier == "quick" else ", pairs of mutations for seeds <= 5 lines"),
+             % ("" if tier == "quick" else ", pairs of mutations for seeds <= 5 lines", 2 if tier == "quick" else 3),
         bounds={"mutation_order": 1 if tier == "quick" else 2, "graphs": 1024},
         assumptions=["schemas use only datatypes that reject with ValueError",
                      "accept/reject of acyclic include graphs: every file holds only multikey lines, so all are accepted"])
@@ -399,6 +439,10 @@ def run(tier):
     mem += [("long", lo, min(nm, lo + step), tier) for lo in range(0, nm, step)]
     core.pmap(shard_a, mem, run.acc, shard_budget=3000.0)
     core.pmap(shard_c, [(lo, lo + 32, inside) for lo in range(0, 512, 32) for inside in (False, True)], run.acc)
+    maxlen = 2 if tier == "quick" else 3
+    ncomb = sum(len(URL_TOKENS) ** n for n in range(maxlen + 1))
+    step = (ncomb + 31) // 32
+    core.pmap(shard_e, [(lo, lo + step, maxlen) for lo in range(0, ncomb, step)], run.acc)
     cm = [m for m in C.members(tier) if m[0].startswith("rich") or "@1" in m[0]]
     core.pmap(shard_d, [(m, tier) for m in cm[:: (4 if tier == "quick" else 1)]], run.acc)
     a = run.acc
@@ -417,6 +461,9 @@ def replay(body):
         if "graph" in case:
             sch = H.load_schema(GRAPH_SCHEMA)
             r = H.load_mem(sch, case["files"], URLS[0])
+        elif "directive_argument" in case:
+            sch = H.load_schema(GRAPH_SCHEMA)
+            r = H.load(sch, case["text"], url="file:///v/g/main.conf")
         elif "overrides" in case:
             sch = H.load_schema(case["member"]["schema"])
             r = H.load(sch, case["text"], overrides=case["overrides"])
